@@ -767,6 +767,13 @@ func compareMessage(m *tlb.Message, src *cell.Cell, spec *msgSpec, how, where st
 		}
 		return
 	}
+	if src.Mask() != 0 {
+		// a record of level > 0 (taken from a Merkle proof): its re-encoding is built in memory,
+		// where tongo does not derive level masks (in-memory cells are ordinary, C02) — the
+		// normalised hash of such a record is not judged
+		R.Count("normalised_hash_not_judged_for_level>0_messages", 1)
+		return
+	}
 	canon := spec.canonical().Hash()
 	R.Eval("n/" + how + "/" + cls + "/" + string(canon[:8]))
 	R.Count("normalised_hashes_compared_with_canonical_form", 1)
@@ -1267,6 +1274,48 @@ func sectionRareExtIn() {
 				R.Inconclusive("tongo rejects an external message whose body reference is a library cell")
 			} else {
 				compareMessage(m, c, spec, how, "exotic-body", map[string]any{"case": i, "body": "library cell"})
+			}
+		}
+		// (c) a message of level > 0 (its body holds a pruned branch, as in a record taken from a Merkle
+		// proof), referenced twice from one tree: the second decode meets the cell in the hasher's cache
+		{
+			var ph cell.Hash
+			copy(ph[:], rng.Bytes(32))
+			pruned := cell.NewPrunedRaw(1, []cell.Hash{ph}, []int{rng.Intn(500)})
+			body := cell.New(rng.Bits(rng.Intn(200)), false, pruned)
+			kind := []string{"int", "ext-in", "ext-out"}[i%3]
+			lspec := &msgSpec{initMode: 0, bodyRef: true, body: body}
+			genInfo(rng, kind, lspec)
+			if lc, err := lspec.cell(); err == nil {
+				root := cell.New(nil, false, lc, lc)
+				for _, how := range []string{"plain", "hasher"} {
+					t, err := deliver(root, true, rng)
+					if err != nil {
+						R.HarnessError("deliver: %v", err)
+						return
+					}
+					var v struct {
+						A tlb.Message `tlb:"^"`
+						B tlb.Message `tlb:"^"`
+					}
+					pn := mon.Guard(func() {
+						if how == "plain" {
+							err = tlb.Unmarshal(t, &v)
+						} else {
+							err = tlb.NewDecoder().Unmarshal(t, &v)
+						}
+					})
+					if pn != nil {
+						R.Violation("panic@"+pn.Site+"/decode-message/level1-body", map[string]any{"panic": pn.Value})
+						continue
+					}
+					if err != nil {
+						R.Inconclusive("tongo rejects a message whose body holds a pruned branch")
+						continue
+					}
+					compareMessage(&v.A, lc, lspec, how, "^/level1-message/first-decode", map[string]any{"case": i, "note": "message cell has level mask 1"})
+					compareMessage(&v.B, lc, lspec, how, "^/level1-message/second-decode-of-the-same-cell", map[string]any{"case": i, "note": "message cell has level mask 1; same cell object decoded a second time"})
+				}
 			}
 		}
 		// (b) the body reference is a cell that was already read as a message elsewhere in the same tree
